@@ -284,7 +284,7 @@ func runC06(c *Ctx) {
 
 	// R6 wrap after every advance
 	for _, f := range []*ssa.Function{W, R} {
-		o = c.Obl("R6", fname(f), "after every advance of head/tail the index is compared (freshly loaded) with len(data) and wrapped before it is used or the lock is released", 3)
+		o = c.Obl("R6", fname(f), "after every advance of head/tail the index is compared (freshly loaded) with len(data) and wrapped before it is used or the lock is released", 2)
 		for _, field := range []string{r.head, r.tail} {
 			for _, in := range findU(f, func(in ssa.Instruction) bool { return r.isStoreTo(in, field) }) {
 				st := in.(*ssa.Store)
@@ -471,43 +471,63 @@ func isLenOf(v ssa.Value, m func(ssa.Value) bool) bool {
 
 // headerWriteShifts: the shift amounts of the bytes stored directly (not via copy) into the ring, in dominance order.
 func (r *bufRoles) headerWriteShifts(W *ssa.Function, packet *ssa.Parameter) ([]int64, token.Pos) {
-	var stores []*ssa.Store
-	for _, in := range findU(W, func(in ssa.Instruction) bool {
-		st, ok := in.(*ssa.Store)
-		if !ok {
-			return false
-		}
-		_, isIA := st.Addr.(*ssa.IndexAddr)
-		return isIA && r.isRingWrite(in)
-	}) {
-		stores = append(stores, in.(*ssa.Store))
-	}
-	// order by dominance
-	for i := 0; i < len(stores); i++ {
-		for j := i + 1; j < len(stores); j++ {
-			if domU(stores[j], stores[i]) {
-				stores[i], stores[j] = stores[j], stores[i]
-			}
-		}
-	}
-	var out []int64
+	// along every successful path of Write (helpers inlined, each call of a byte-storing helper with its own
+	// argument): the single bytes stored into the ring, in order
+	paths, ok := enumIterPathsU(W, 50000)
 	pos := W.Pos()
-	for _, st := range stores {
-		pos = st.Pos()
-		v := strip(st.Val)
-		if b, ok := v.(*ssa.BinOp); ok && b.Op == token.SHR {
-			if k, ok := constInt(b.Y); ok && isLenOf(b.X, func(x ssa.Value) bool { return sameVal(x, packet) }) {
-				out = append(out, k)
-				continue
-			}
-		}
-		if isLenOf(v, func(x ssa.Value) bool { return sameVal(x, packet) }) {
-			out = append(out, 0)
+	if !ok {
+		return nil, pos
+	}
+	var first []int64
+	have := false
+	for pi := range paths {
+		pth := &paths[pi]
+		ret, isRet := pth.last().(*ssa.Return)
+		if !isRet || pth.Loop || ret.Parent() != W {
 			continue
 		}
-		out = append(out, -1)
+		if e := errorOperand(ret); e == nil || !isNilConst(pth.value(e)) {
+			continue
+		}
+		var out []int64
+		for idx, in := range pth.Instrs {
+			st, ok := in.(*ssa.Store)
+			if !ok {
+				continue
+			}
+			if _, isIA := st.Addr.(*ssa.IndexAddr); !isIA || !r.isRingWrite(in) {
+				continue
+			}
+			pos = st.Pos()
+			v := strip(pth.valueAt(st.Val, idx))
+			isPkt := func(x ssa.Value) bool { return sameOrigin(pth.valueAt(x, idx), ssa.Value(packet)) }
+			if b, ok := v.(*ssa.BinOp); ok && b.Op == token.SHR {
+				if k, ok := constInt(b.Y); ok && isLenOf(b.X, isPkt) {
+					out = append(out, k)
+					continue
+				}
+			}
+			if isLenOf(v, isPkt) {
+				out = append(out, 0)
+				continue
+			}
+			out = append(out, -1)
+		}
+		if !have {
+			first, have = out, true
+			continue
+		}
+		same := len(out) == len(first)
+		for i := range out {
+			if same && out[i] != first[i] {
+				same = false
+			}
+		}
+		if !same {
+			return append(append([]int64{}, first...), -2), pos // paths disagree
+		}
 	}
-	return out, pos
+	return first, pos
 }
 
 // headerReadShifts: loads of single ring bytes at head in Read (dominance order) and the shifts with which they enter the decoded length.
